@@ -220,6 +220,9 @@ pub fn sigma_write(nodes: &[u64], rich: bool) -> Vec<Op> {
     for &e in nodes {
         a.push(Op::DeleteNode { e });
     }
+    if nodes.len() >= 2 {
+        a.push(Op::TombstoneNodeOnly { e: nodes[1] });
+    }
     let e = nodes[0];
     a.push(Op::SetNodeProp { e, k: "k", v: Val::I(1) });
     a.push(Op::SetNodeProp { e, k: "k", v: Val::I(2) });
